@@ -71,6 +71,8 @@ BareForms == {FALSE, TRUE}
 \* FALSE: the form is a known finding (F-C06-11, witness recover-in-a-literal-deferred-through-a-variable): the
 \* repair that was written needs the identity of function values (unsafe) and is not exact across goroutines
 ClobForms == FALSE
+\* targets of "x, C[x] = two(e)": "" the array, "m1" a map
+TupleCallTargets == {"", "m1"}
 
 GenLeaf(c) ==
     LET k == PickW(<< <<3, "lit">>, <<4, "var">>, <<1, "fld">>, <<1, "idx">>, <<IF c.ptrs # {} THEN 2 ELSE 0, "deref">>,
@@ -733,7 +735,17 @@ TupleFamily ==
         x0 \in {0, 1}, mf \in {"lit", "make", "nil"}, fm \in {"xfirst", "afirst"}, tgt \in {"", "m1"},
         a \in {Bin("add", Var("x"), Lit(1)), Bin("add", Var("x"), Lit(2)), Lit(3)}, b \in {Var("x"), Lit(7)}, br \in BareForms }
 
-InitLoopFam == prog \in LoopFamily \cup SwitchFamily \cup TupleFamily /\ res = Run(prog)
+\* the same left-hand sides fed by ONE call with two results (x, C[x] = two(e)): another lowering in the interpreter
+TupleCallFamily ==
+    { WProg("", <<>>,
+            << [k |-> "def", x |-> "x", e |-> Lit(x0)],
+               [k |-> "mkmap", s |-> "m1", form |-> mf, ks |-> IF mf = "lit" THEN <<1>> ELSE <<>>, es |-> IF mf = "lit" THEN <<Lit(9)>> ELSE <<>>],
+               [k |-> "asgidxc", x |-> "x", form |-> fm, e |-> a, s |-> tgt],
+               [k |-> "asgidxc", x |-> "x", form |-> fm, e |-> Bin("add", Var("x"), Lit(3)), s |-> tgt],
+               PrintS(Var("x")), [k |-> "printm", s |-> "m1"], [k |-> "printg"] >>) :
+        x0 \in {0, 1}, mf \in {"lit", "make", "nil"}, fm \in {"xfirst", "afirst"}, tgt \in TupleCallTargets,
+        a \in {Bin("add", Var("x"), Lit(1)), Lit(3), Var("g1")} }
+InitLoopFam == prog \in LoopFamily \cup SwitchFamily \cup TupleFamily \cup TupleCallFamily /\ res = Run(prog)
 SpecLoopFam == InitLoopFam /\ [][UNCHANGED vars]_vars
 
 InitFam == prog \in FamilyDefer /\ res = Run(prog)
